@@ -201,7 +201,10 @@ Fixpoint check_token (passages : list (string * passage)) (t : token) {struct t}
           brs r
       end in
   match t with
-  | TJump target args => validate_single_call passages target args
+  | TJump target args =>
+      (* fix 3c6eb71: only a choice can target @join *)
+      if String.eqb target "@join" then dsyn "call:jump-to-join" 0
+      else validate_single_call passages target args
   | TCond branches => brs branches
   | TLoop _ _ cont chs =>
       let* _ := check_choices passages chs in toks cont
@@ -228,6 +231,15 @@ Definition validate_passage_arguments (passages : list (string * passage)) : pre
 
 (* _determine_initial_passage: `list(passages.keys())[0]` comes after `if not passages: raise`; the
    two are one match on the list *)
+(* fix 15f0a5b: the engine enters the initial passage without arguments *)
+Definition startable (passages : list (string * passage)) (name : string) : pres string :=
+  match lookup name passages with
+  | Some p =>
+      if existsb (fun q => match pdefault q with None => true | Some _ => false end) (params p)
+      then PDiag (DValue "initial-requires-arguments") else POk name
+  | None => PInternal IKey                                  (* passages[name]: name is always a key here *)
+  end.
+
 Definition determine_initial_passage (passages : list (string * passage)) (explicit_start : option string)
   : pres string :=
   match passages with
@@ -237,9 +249,9 @@ Definition determine_initial_passage (passages : list (string * passage)) (expli
       match explicit_start with
       | Some s =>
           if nonempty s then                                       (* `if explicit_start:` *)
-            (if has_key s passages then POk s else PDiag (DValue "start-not-found"))
-          else POk fallback
-      | None => POk fallback
+            (if has_key s passages then startable passages s else PDiag (DValue "start-not-found"))
+          else startable passages fallback
+      | None => startable passages fallback
       end
   end.
 
